@@ -145,8 +145,10 @@ def natDigits (n : Nat) : String := toString n
 def numDigits (n : Nat) : Nat := (toString n).length
 
 /-- `(D, E)` with |x| ≈ D × 10^E : the shortest digit string that reads back as `x`
-    (closest to the exact value among the shortest).  `x` finite and non-zero. -/
-def shortestDigits (x : F64) : Nat × Int :=
+    (closest to the exact value among the shortest).  `x` finite and non-zero.
+    When the exact value lies half-way between the two candidates, Rust's `{}` takes the
+    upper one (`tieUp = true`, observed: 2^-25 prints …313), ryu / serde_json the even one. -/
+def shortestDigitsWith (tieUp : Bool) (x : F64) : Nat × Int :=
   let (num, den) := x.ratio
   let ax := x.abs
   -- k = floor(log10 v) : largest k with 10^k ≤ v
@@ -176,7 +178,7 @@ def shortestDigits (x : F64) : Nat × Int :=
         if r = 0 && okLo then some lo
         else if okLo && okHi then
           (if 2 * r < sd then some lo else if 2 * r > sd then some hi
-           else if lo % 2 = 0 then some lo else some hi)
+           else if !tieUp && lo % 2 = 0 then some lo else some hi)
         else if okLo then some lo
         else if okHi then some hi
         else none
@@ -190,6 +192,9 @@ def shortestDigits (x : F64) : Nat × Int :=
     | 0 => (d, e)
     | fuel + 1 => if d ≠ 0 && d % 10 = 0 then strip (d / 10) (e + 1) fuel else (d, e)
   strip d e 20
+
+/-- the digits of Rust's `f64::to_string` -/
+def shortestDigits (x : F64) : Nat × Int := shortestDigitsWith true x
 
 def zeros (n : Nat) : String := String.ofList (List.replicate n '0')
 
